@@ -30,10 +30,10 @@ import (
 )
 
 type tierCfg struct {
-	Count    int64 // cases (upper bound)
-	WallS    int   // sweep wall-clock budget in seconds
-	HangS    int   // per-case watchdog
-	RaceS    int   // auxiliary race leg seconds (0 = none)
+	Count     int64 // cases (upper bound)
+	WallS     int   // sweep wall-clock budget in seconds
+	HangS     int   // per-case watchdog
+	RaceS     int   // auxiliary race leg seconds (0 = none)
 	MinBudget int
 }
 
@@ -91,6 +91,7 @@ var verifDir = func() string {
 	}
 	return d
 }()
+
 const goBin = "go1.26.8"
 
 var scratch string
@@ -359,28 +360,29 @@ type violation struct {
 }
 
 type sweepResult struct {
-	evals      int64
-	steps      int64
-	switches   int64
-	contended  int64
-	fakeNs     int64
-	tasks      int64
-	shapes     map[string]struct{}
-	traces     map[string]struct{}
-	counters   map[string]int64
-	outcomes   map[string]int64
-	inconcl    int64
-	leaked     int64
-	samples    []any
-	violations []*violation
-	trouble    string
-	wall       float64
-	nviolRaw   int64
-	nknownCand int64
-	knownCands []*violation
-	nShapes    int
-	nTraces    int
-	inconclEx  []string
+	evals            int64
+	steps            int64
+	switches         int64
+	contended        int64
+	fakeNs           int64
+	tasks            int64
+	shapes           map[string]struct{}
+	traces           map[string]struct{}
+	counters         map[string]int64
+	outcomes         map[string]int64
+	inconcl          int64
+	leaked           int64
+	samples          []any
+	violations       []*violation
+	trouble          string
+	wall             float64
+	nviolRaw         int64
+	nknownCand       int64
+	knownCands       []*violation
+	nShapes          int
+	nTraces          int
+	unconfirmedHangs int
+	inconclEx        []string
 }
 
 func appendHashes(dst []uint64, path string) []uint64 {
@@ -458,6 +460,8 @@ func (p *proc) kill() {
 
 // wait polls until the process ends or its heartbeat stalls for hangS seconds.
 func (p *proc) wait(hangS int) (hung bool) {
+	// the processes are waited for one after the other: the stall clock of this one starts now
+	p.lastChg = time.Now()
 	for !p.isDone() {
 		time.Sleep(50 * time.Millisecond)
 		if rssMB(p.cmd.Process.Pid) > 6000 {
@@ -467,7 +471,7 @@ func (p *proc) wait(hangS int) (hung bool) {
 			return true
 		}
 		b, _ := os.ReadFile(p.hb)
-		if s := string(b); s != p.lastHB {
+		if s := string(b); s != p.lastHB && s != "" {
 			p.lastHB, p.lastChg = s, time.Now()
 		} else if time.Since(p.lastChg) > time.Duration(hangS)*time.Second {
 			p.kill()
@@ -602,7 +606,12 @@ func sweep(prop, tier, bin string, base int64, cfg tierCfg, workers int, deadlin
 		sr.samples = append(sr.samples, map[string]any{"case": sr.violations[0].c, "result": sr.violations[0].res})
 	}
 	// hangs / crashes: re-run the single case in a fresh process
-	for _, h := range hangs {
+	for hi, h := range hangs {
+		if hi >= 2 {
+			// every worker usually stops at its own first hanging case: two confirmations are enough
+			sr.unconfirmedHangs++
+			continue
+		}
 		seedStr := ""
 		if m := regexp.MustCompile(`seed (-?\d+)`).FindStringSubmatch(h.beat); m != nil {
 			seedStr = m[1]
@@ -849,32 +858,33 @@ func writeEvidence(prop, tier string, seed int64, sr *sweepResult, cfg tierCfg, 
 		perHour = float64(sr.evals) / sr.wall * 3600
 	}
 	cov := map[string]any{
-		"evaluations":         sr.evals,
-		"distinct_nontrivial": sr.nShapes,
-		"rule": "one evaluation = one simulated run of a case generated from seed VERIF_SEED*2^20+i; a case is non-trivial when its run contained at least one context switch or one injected fault/event that fired (per-property rule in DESIGN.md section 5); distinct = distinct hash of (workload, scheduling log, fired events)",
-		"samples":                    sr.samples,
-		"simulated_runs_per_hour":    perHour,
-		"seeds_per_hour":             perHour,
-		"scheduler_steps":            sr.steps,
-		"context_switches":           sr.switches,
-		"lock_contention_events":     sr.contended,
-		"tasks_run":                  sr.tasks,
-		"simulated_time_s":           float64(sr.fakeNs) / 1e9,
-		"distinct_interleavings":     sr.nTraces,
-		"distinct_measure":           "distinct FNV hashes of the per-run scheduling log (step, task id, yield kind)",
-		"fault_and_probe_counts":     sr.counters,
-		"outcomes":                   sr.outcomes,
-		"inconclusive_runs":          sr.inconcl,
-		"inconclusive_examples":      sr.inconclEx,
-		"runs_with_leaked_goroutine": sr.leaked,
-		"violations_before_grouping": sr.nviolRaw,
-		"known_finding_candidates":   sr.nknownCand,
-		"known_findings_matched":     knownN,
-		"workers":                    workers,
-		"sweep_wall_s":               sr.wall,
-		"rewriter_report":            gen,
-		"components_real":            []string{"parser", "ast", "vm (all logic)", "env (all logic)", "core", "packages", "Go channels", "reflect"},
-		"components_stubbed":         []string{"context.Context (simrt.Ctx)", "env mutex type (simrt.RWMutex)", "goroutine spawn (simrt.Go)", "clock (testing/synctest fake clock)", "host functions bound by the workload", "env.ExternalLookup"},
+		"evaluations":                   sr.evals,
+		"distinct_nontrivial":           sr.nShapes,
+		"rule":                          "one evaluation = one simulated run of a case generated from seed VERIF_SEED*2^20+i; a case is non-trivial when its run contained at least one context switch or one injected fault/event that fired (per-property rule in DESIGN.md section 5); distinct = distinct hash of (workload, scheduling log, fired events)",
+		"samples":                       sr.samples,
+		"simulated_runs_per_hour":       perHour,
+		"seeds_per_hour":                perHour,
+		"scheduler_steps":               sr.steps,
+		"context_switches":              sr.switches,
+		"lock_contention_events":        sr.contended,
+		"tasks_run":                     sr.tasks,
+		"simulated_time_s":              float64(sr.fakeNs) / 1e9,
+		"distinct_interleavings":        sr.nTraces,
+		"distinct_measure":              "distinct FNV hashes of the per-run scheduling log (step, task id, yield kind)",
+		"fault_and_probe_counts":        sr.counters,
+		"outcomes":                      sr.outcomes,
+		"inconclusive_runs":             sr.inconcl,
+		"inconclusive_examples":         sr.inconclEx,
+		"runs_with_leaked_goroutine":    sr.leaked,
+		"violations_before_grouping":    sr.nviolRaw,
+		"known_finding_candidates":      sr.nknownCand,
+		"worker_stalls_not_reconfirmed": sr.unconfirmedHangs,
+		"known_findings_matched":        knownN,
+		"workers":                       workers,
+		"sweep_wall_s":                  sr.wall,
+		"rewriter_report":               gen,
+		"components_real":               []string{"parser", "ast", "vm (all logic)", "env (all logic)", "core", "packages", "Go channels", "reflect"},
+		"components_stubbed":            []string{"context.Context (simrt.Ctx)", "env mutex type (simrt.RWMutex)", "goroutine spawn (simrt.Go)", "clock (testing/synctest fake clock)", "host functions bound by the workload", "env.ExternalLookup"},
 	}
 	for k, v := range race {
 		cov[k] = v
